@@ -26,3 +26,23 @@ Definition run (c : case) : ob :=
       let s0 := [{| cty := t; cback := nd; chook := HNone |}] in
       OL (obs_store s0 :: run_cmds s0 cs)
   end.
+
+(* a history followed by one slice assignment `view[a:b] = values` through held view u (C14) *)
+Fixpoint end_store (s : store) (cs : list cmd) : store :=
+  match cs with [] => s | c :: r => end_store (snd (run_cmd HS nosrc s c)) r end.
+Definition slice_op := (nat * Z * Z * list arg)%type.
+Definition case2 := (case * option slice_op)%type.
+Definition run2 (c2 : case2) : ob :=
+  match snd c2 with
+  | None => run (fst c2)
+  | Some (u, a, b, args) =>
+      let '(t, v, cs) := fst c2 in
+      match mk HS t v with
+      | Err e => OL [OE EOther]
+      | Ok nd =>
+          let s0 := [{| cty := t; cback := nd; chook := HNone |}] in
+          let '(res, s2) := slice_set HS nosrc (end_store s0 cs) u a b args in
+          OL (obs_store s0 :: run_cmds s0 cs ++
+              [OL [Obool (match res with Ok _ => true | Err _ => false end); obs_store s2]])
+      end
+  end.
